@@ -547,6 +547,99 @@ def run_body_case(ctx, ob, history, outer, cls, body, brk, how, cid, note=True, 
                                   indices=[y['index'] for y in ys]))
 
 
+def run_inner_break_impl(ob, d, outer, inner, brk):
+    """for ... in d.<outer>(): for ... in d.<inner>(): ...; break (at inner item number brk), outer run to exhaustion"""
+    import gc
+    name_id = {'scans': state_id, 'compscans': label_id}
+    ys = []
+    for idx, name, tgt in getattr(d, outer)():
+        y = dict(index=int(idx), name=name_id[outer](name), target=target_index(d, tgt), st=observe_state(ob, d), inner=[], ab=None)
+        gen = getattr(d, inner)()
+        for i, (idx2, name2, tgt2) in enumerate(gen):
+            z = dict(index=int(idx2), name=name_id[inner](name2), target=target_index(d, tgt2), st=observe_state(ob, d))
+            if i == brk:
+                y['ab'] = z
+                break
+            y['inner'].append(z)
+        del gen      # CPython finalises the suspended generator at once (GeneratorExit at its yield)
+        y['after_inner'] = observe_state(ob, d)
+        ys.append(y)
+    return ys, observe_state(ob, d)
+
+
+def run_inner_break_case(ctx, ob, history, outer, inner, brk, cid, note=True):
+    """Tie only (a break in the inner loop is outside the domain of the property: C03_inner_break_example): the real
+    nested loops against the model iterate_nested_break, including WHETHER the outer generator raises."""
+    st_w, lb_w = obs_cds(ob.d)
+    payload = [ob.wire(), st_w, lb_w, [c02.wire_call(c) for c in history], WHICH[outer], WHICH[inner], brk]
+    out = ctx.model([[35, payload]])[0]
+    if out == [-999] or len(out) != 3:
+        ctx.count('inner_break_model_error')
+        return
+    statuses, ms0, model = out
+    sg = 'inner_break;iter=%s/%s;symptom=' % (outer, inner)
+    case = dict(cid=cid, mode=[outer, inner], inner_break_at=brk, obs=getattr(ob, 'spec', None),
+                history=[c02.describe_call(c) for c in history], statuses=statuses)
+    d = ob.fresh()
+    with warnings.catch_warnings():
+        warnings.simplefilter('ignore')
+        for call, stt in zip(history, statuses):
+            if stt != 0:
+                continue
+            try:
+                d.select(**c02.py_call(call))
+            except Exception:      # noqa: BLE001
+                ctx.count('prior_history_raised')
+                return
+        before = observe_state(ob, d)
+        if not compare_state(ctx, ob, before, ms0, 'before', sg + 'prior_history', case):
+            return
+        try:
+            ys, after = run_inner_break_impl(ob, d, outer, inner, brk)
+            raised = None
+        except IndexError as e:
+            raised = repr(e)
+    ctx.traces_validated += 1
+    if model[0] != 0:
+        ctx.count('inner_break=raises_in_both' if raised else 'inner_break=model_raises_only')
+        if not raised:
+            ctx.disagree(sg + 'model_raises_impl_not', case, 'ok', model, 'the model predicts IndexError', kind='tie')
+        return
+    if raised:
+        ctx.disagree(sg + 'impl_raises_model_not', case, raised, 'ok', 'the nested loops raise where the model does not', kind='tie')
+        return
+    m_ys, m_final = model[1], model[2]
+    if [y['index'] for y in ys] != [m[0] for m in m_ys]:
+        ctx.disagree(sg + 'indices_vs_model', case, [y['index'] for y in ys], [m[0] for m in m_ys],
+                     'outer indices differ from the model', kind='tie')
+        return
+    for y, m in zip(ys, m_ys):
+        compare_state(ctx, ob, y['st'], m[3], 'yield', sg, case)
+        m_inner, m_ab = m[4]
+        if [z['index'] for z in y['inner']] != [z[0] for z in m_inner] or \
+                (y['ab'] is None) != (not m_ab) or (m_ab and y['ab']['index'] != m_ab[0]):
+            ctx.disagree(sg + 'inner_vs_model', case, [[z['index'] for z in y['inner']], y['ab'] and y['ab']['index']],
+                         [[z[0] for z in m_inner], m_ab and m_ab[0]], 'inner items differ from the model', kind='tie')
+        elif m_ab:
+            compare_state(ctx, ob, y['ab']['st'], m_ab[3], 'inner_left', sg, case)
+    compare_state(ctx, ob, after, m_final, 'after', sg, case)
+    leaked = after['tk'] != before['tk']
+    ctx.count('inner_break=%s' % ('leaks_past_exhaustion' if leaked else 'no_trace'))
+    if note:
+        ctx.note_case(cid, nontrivial=len(ys) >= 1, sample=dict(mode=[outer, inner], inner_break_at=brk, history=case['history']))
+
+
+def inner_break_cases(bseed, n):
+    rng = random.Random(bseed)
+    ob = c02.Observation(c02.gen_obs(rng))
+    out = []
+    for j in range(n):
+        hist = stack_history(rng, ob, rng.choice([0, 0, 1, 1, 2]))
+        outer, inner = rng.choice([('compscans', 'scans'), ('compscans', 'scans'), ('scans', 'compscans')])
+        out.append((hist, outer, inner, rng.choice([0, 0, 1, 2])))
+    return ob, out
+
+
 def body_cases(bseed, n):
     rng = random.Random(bseed)
     ob = c02.Observation(c02.gen_obs(rng))
@@ -1340,8 +1433,17 @@ def run(ctx):
             run_concat(ctx, ctx.rng.randrange(1 << 30), 0, use_model=False)
         return
     rng = ctx.rng
+    import time
+    t_last = [time.time()]
+    walls = ctx.extra.setdefault('stream_wall_s', {})
+
+    def lap(name):
+        now = time.time()
+        walls[name] = round(now - t_last[0], 1)
+        t_last[0] = now
     for f in ctx.findings:
         run_witness(ctx, f['witness'])
+    lap('witnesses')
     # (a) harness DataSet
     nobs = ctx.scale(30, 400)
     nhist = ctx.scale(20, 25)
@@ -1351,6 +1453,7 @@ def run(ctx):
         for j, (hist, mode) in enumerate(cases):
             run_iter_case(ctx, ob, hist, mode, ('harness', oseed, nhist, j))
         ctx.count('observations')
+    lap('a_harness_dataset')
     # (d) selecting bodies and abandoned iterations
     nbody = ctx.scale(25, 300)
     for _ in range(nbody):
@@ -1358,6 +1461,14 @@ def run(ctx):
         ob, cases = body_cases(bseed, 8)
         for j, (hist, outer, cls, body, brk, how) in enumerate(cases):
             run_body_case(ctx, ob, hist, outer, cls, body, brk, how, ('body', bseed, 8, j))
+    lap('d_bodies_breaks')
+    # (d') nested loops with a break in the inner loop (tie only)
+    for _ in range(ctx.scale(10, 120)):
+        bseed = rng.randrange(1 << 30)
+        ob, cases = inner_break_cases(bseed, 6)
+        for j, (hist, outer, inner, brk) in enumerate(cases):
+            run_inner_break_case(ctx, ob, hist, outer, inner, brk, ('innerbreak', bseed, 6, j))
+    lap('d2_inner_breaks')
     # (b) real format classes: segmentation + iterators
     nreal = ctx.scale(90, 1200)
     for _ in range(nreal):
@@ -1366,13 +1477,16 @@ def run(ctx):
     for _ in range(nv1):
         vseed = rng.randrange(1 << 30)
         run_v1_case(ctx, gen_v1(random.Random(vseed)), ('v1', vseed))
+    lap('b_real_formats')
     # (c) concatenated data sets: structure + iterators
     ncat = ctx.scale(40, 500)
     for _ in range(ncat):
         run_concat(ctx, rng.randrange(1 << 30), 3)
+    lap('c_concatenations')
     # (e) concatenations built by katdal.open([file, file, ...]) from HDF5 files
     for _ in range(ctx.scale(10, 150)):
         run_open_concat(ctx, rng.randrange(1 << 30), 2)
+    lap('e_open_concatenations')
     if ctx.tier == 'thorough':
         crosscheck_in_coq(ctx)
 
@@ -1419,6 +1533,11 @@ def replay(ctx, doc):
         ob, cases = body_cases(bseed, n)
         hist, outer, cls, body, brk, how = cases[j]
         run_body_case(ctx, ob, hist, outer, cls, body, brk, how, tuple(cid))
+    elif kind == 'innerbreak':
+        _, bseed, n, j = cid
+        ob, cases = inner_break_cases(bseed, n)
+        hist, outer, inner, brk = cases[j]
+        run_inner_break_case(ctx, ob, hist, outer, inner, brk, tuple(cid))
     elif kind == 'seg':
         run_real(ctx, cid[1], 0)
     elif kind == 'real':
